@@ -167,7 +167,7 @@ def generate(rs: int, tier: str, index: int) -> dict:
         # the statement says nothing about the retain options: monomials must not be confused under any of them
         journey["options"] = {"retain_names": co.chance(0.3), "retain_coefficients": co.chance(0.5)}
     if co.chance(0.3):
-        journey["exp_layout"] = "F"
+        journey["exp_layout"] = co.choice(["F", "narrow", "narrow"])
     return {"property": ID, "run_seed": rs, "tier": tier, "prelude": prelude.gen_prelude(core.Chooser(rs, "prelude")), "steps": [journey]}
 
 
@@ -185,6 +185,8 @@ def _build(m: Dict[tuple, int], names: List[str]) -> Any:
     matrix = numpy.array(exps, dtype=numpy.int64).reshape(len(exps), len(names))
     if _LAYOUT[0] == "F":
         matrix = numpy.asfortranarray(matrix)  # the same matrix, stored column by column
+    elif _LAYOUT[0] == "narrow" and matrix.size and matrix.min() >= 0:
+        matrix = matrix.astype(numpy.min_scalar_type(int(matrix.max())))  # the smallest unsigned type that holds the exponents
     return numpoly.polynomial_from_attributes(matrix, [numpy.array(v) for v in m.values()], tuple(names), retain_coefficients=True, retain_names=True)
 
 
